@@ -1,7 +1,8 @@
 PROP = dict(level="exploration", parts=[
-    py("tables", "C19_tables.py", shards=(16, 16), timeout=dict(quick=1500, thorough=5400)),
-    py("direct", "C19_tables.py", args=["--mode", "direct"], shards=(4, 4)),
-    py("calculus", "C19_calculus.py", ninja=["votca_tools", "votca_csg", "csg_resample"], shards=(8, 8)),
+    py("tables", "C19_tables.py", shards=(16, 16), timeout=dict(quick=3600, thorough=10800), case_timeout=1500),
+    py("direct", "C19_tables.py", args=["--mode", "direct"], shards=(4, 4), timeout=dict(quick=3600, thorough=3600), case_timeout=1500),
+    py("calculus", "C19_calculus.py", ninja=["votca_tools", "votca_csg", "csg_resample"], shards=(8, 8),
+       timeout=dict(quick=3600, thorough=7200), case_timeout=3000),
 ])
 TEXT = dict(engine="bsx", design_ref="DESIGN.md §3 C19",
    technique="exhaustive enumeration of small tables x documented script options; the unmodified Perl scripts of the source tree (and the built csg_resample for differentiation) are executed and compared with closed-form Python oracles derived from their help texts",
